@@ -100,7 +100,7 @@ def c14_model(ctx, m, n, kind, wd):
     weight, diameter = (ctx.real('weight_gr', 1, 1e4), ctx.real('diameter_in', 0.05, 5)) if wd else (0, 0)
     donor = None
     if kind == 'dicts':
-        table_in = [{'Mach': xs[i], 'CD': ys[i]} for i in range(n)]
+        table_in = [({'Mach': xs[i], 'CD': ys[i]} if (m + n) % 2 else {'CD': ys[i], 'Mach': xs[i]}) for i in range(n)]       # either key order
     else:
         donor = dm.DragModel(0.5, [{'Mach': xs[i], 'CD': ys[i]} for i in range(n)])
         table_in = donor.drag_table
@@ -177,6 +177,14 @@ def c14_bcpoint(ctx, unit, bare):
         pt = dm.BCPoint(b, V=(v if bare else U(v)))
     a0 = F(340294, 1000)       # sqrt(1.4 * 287.053 * 288.15) m/s
     ctx.check_eq('velocity_to_mach', pt.Mach, v * si.SPEED_MPS[unit] / a0, rel=1e-4)
+    # ... and again after the preferred velocity unit was changed (nothing may be remembered from the first point)
+    for other in VEL_UNITS:
+        if other == unit:
+            continue
+        OU = getattr(p.Unit, other)
+        with with_preferred(velocity=OU):
+            pt2 = dm.BCPoint(b, V=(v if bare else OU(v)))
+        ctx.check_eq('velocity_to_mach', pt2.Mach, v * si.SPEED_MPS[other] / a0, rel=1e-4, info={'second_unit': other})
     ctx.check('bc_kept', ctx.same_term(pt.BC, b))
 
     def rejected(f):
